@@ -169,6 +169,7 @@ __wrap_send(int fd, const void * buf, size_t len, int flags)
 		set_eagain();
 		return (-1);
 	default:
+		hc_epipe(flags);
 		errno = EPIPE;
 		return (-1);
 	}
